@@ -19,7 +19,7 @@ ENGINE = "CAL+EP"
 CLASSES = [ES, NK, VX, ZQ, ZT, ZF, ZN, ZB]
 DECADES = list(range(1970, 2100, 10))
 N = {"quick": 40, "thorough": 2400}
-TIME = {"quick": 40, "thorough": 480}
+TIME = {"quick": 300, "thorough": 480}
 RULE = ("Resolution (systematic): for every built-in class x decade 1970..2099 x month offset {0,1,2}, a chain over the decade is "
         "resolved at EVERY last-trading instant exactly, 1us before and after it, and at random instants, through lead_contract(now), "
         "static_hashing() and symbol (reading the process clock); each must equal an independent linear scan (earliest last-trading "
